@@ -11,6 +11,10 @@ Definition sig53b (M : Z) : bool := M mod 2 ^ (Z.log2 M - 52) =? 0.
 Definition gds_normalisedb (w : Z) : bool := two52 <=? gds_mant w.
 Definition finiteb (x : Z) : bool := match f64_decomp x with Some _ => true | None => false end.
 
+(** the sixteen words that decode to +-16^63 (Properties/C15.v [rounds_to_max]); what happens when
+    such a value is written again is judged by C10 (known finding), not by C15 *)
+Definition rounds_to_maxb (w : Z) : bool := (gds_exp7 w =? 127) && (two56 - 4 <=? gds_mant w).
+
 Definition code (prop_ok model_eq : bool) : Z :=
   if negb prop_ok then 2 else if model_eq then 0 else 1.
 
@@ -43,7 +47,7 @@ Definition check_decenc (a : Z) (r : list Z) : Z :=
     let prop_ok :=
       (gds_decode a =? d) &&
       (if gds_normalisedb a && sig53b (gds_mant a) then w2 =? a else true) &&
-      ((d2 =? d) || (f64_is_zero d && f64_is_zero d2)) in
+      (rounds_to_maxb a || (d2 =? d) || (f64_is_zero d && f64_is_zero d2)) in
     code prop_ok model_eq
   | _ => 2
   end.
